@@ -7,14 +7,6 @@ theorem pin_src_google_tag_pattern : Generated.src_google_tag_pattern = "'^' + '
 
 theorem pin_src_google_tag_aliases : Generated.src_google_tag_aliases = "dict([(item, group[0]) for group in tag_groups for item in group])" := rfl
 
-theorem pin_src_docstr_end_pattern : Generated.src_docstr_end_pattern = "re.escape(trip) + '\\\\s*#.*$'" := rfl
-
-theorem pin_src_docstr_trips : Generated.src_docstr_trips = "(\"'''\", '\"\"\"')" := rfl
-
-theorem pin_src_docstr_cand_start : Generated.src_docstr_cand_start = "stop - nlines - 1" := rfl
-
-theorem pin_src_docstr_startswith : Generated.src_docstr_startswith = "(trip, 'r' + trip, 'u' + trip)" := rfl
-
 theorem pin_src_valid_exts : Generated.src_valid_exts = "['.py']" := rfl
 
 theorem pin_src_valid_func_types : Generated.src_valid_func_types = "(types.FunctionType, types.BuiltinFunctionType, types.MethodType, classmethod, staticmethod, property)" := rfl
